@@ -121,9 +121,6 @@ func (ir *issuanceRun) issuerAnswer(w2 []byte) (wire3 []byte, err error) {
 	if err != nil {
 		return nil, err
 	}
-	if cm.Nonce2 == nil {
-		return nil, fmt.Errorf("no nonce2")
-	}
 	var wit *revocation.Witness
 	if ir.witness != nil {
 		cp := *ir.witness
